@@ -276,16 +276,18 @@ class FermionicArray(AbelianArray):
         return super(FermionicArray, x).item()
 
     def _map_blocks(self, fn_block=None, fn_sector=None):
-        super()._map_blocks(fn_block, fn_sector)
         if fn_sector is not None:
             # need to update phase keys as well, n.b. phases of sectors that
-            # are no longer stored (e.g. truncated away) are dropped, their
-            # old keys need not be valid sectors for the new indices
-            phases = {}
-            for s, p in self._phases.items():
-                new_s = fn_sector(s)
-                if new_s in self._blocks:
-                    phases[new_s] = p
+            # are no longer stored (e.g. truncated or aligned away) are
+            # dropped: their new keys need not be valid sectors for the new
+            # indices, or could collide with the key of a stored block
+            phases = {
+                fn_sector(s): p
+                for s, p in self._phases.items()
+                if s in self._blocks
+            }
+        super()._map_blocks(fn_block, fn_sector)
+        if fn_sector is not None:
             self.modify(phases=phases)
 
     def transpose(self, axes=None, phase=True, inplace=False):
